@@ -1,6 +1,7 @@
 package eng
 
 import (
+	"fmt"
 	"go/constant"
 	"go/token"
 	"go/types"
@@ -739,14 +740,32 @@ type Path struct {
 // FindPath searches for a CFG path from (start block, instruction index) to an
 // instruction satisfying isTarget that avoids the cut. It returns nil if every
 // path is cut — i.e. the must-pass-through obligation holds.
+//
+// The search is path-sensitive for boolean flags: it tracks the truth value of
+// SSA booleans established by branch outcomes and by constant phi operands
+// (`found := false; …; found = true; break; …; if found {…}`), and does not
+// follow a branch edge that contradicts a tracked fact. Facts about a value are
+// dropped whenever the block defining it is re-entered, so loops stay sound.
 func FindPath(start *ssa.BasicBlock, idx int, isTarget func(ssa.Instruction) bool, cut *Cut) *Path {
 	type item struct {
-		b    *ssa.BasicBlock
-		i    int
-		prev *item
+		b     *ssa.BasicBlock
+		i     int
+		prev  *item
+		facts factMap
 	}
-	visited := map[*ssa.BasicBlock]bool{}
-	queue := []*item{{start, idx, nil}}
+	key := func(b *ssa.BasicBlock, f factMap) string {
+		if len(f) == 0 {
+			return fmt.Sprint(b.Index)
+		}
+		ks := make([]string, 0, len(f))
+		for v, t := range f {
+			ks = append(ks, v.Name()+"="+t.ExactString())
+		}
+		sort.Strings(ks)
+		return fmt.Sprint(b.Index, ks)
+	}
+	visited := map[string]bool{}
+	queue := []*item{{start, idx, nil, factMap{}}}
 	mk := func(it *item, tgt ssa.Instruction) *Path {
 		var bl []*ssa.BasicBlock
 		for x := it; x != nil; x = x.prev {
@@ -754,9 +773,13 @@ func FindPath(start *ssa.BasicBlock, idx int, isTarget func(ssa.Instruction) boo
 		}
 		return &Path{Blocks: bl, Target: tgt}
 	}
+	budget := 200000
 	for len(queue) > 0 {
 		it := queue[0]
 		queue = queue[1:]
+		if budget--; budget < 0 {
+			return mk(it, nil) // give up: report conservatively
+		}
 		blocked := false
 		for i := it.i; i < len(it.b.Instrs); i++ {
 			in := it.b.Instrs[i]
@@ -771,18 +794,208 @@ func FindPath(start *ssa.BasicBlock, idx int, isTarget func(ssa.Instruction) boo
 		if blocked {
 			continue
 		}
+		var cond ssa.Value
+		condPol := true
+		if n := len(it.b.Instrs); n > 0 {
+			if iff, ok := it.b.Instrs[n-1].(*ssa.If); ok {
+				cond, condPol = normCond(iff.Cond, true)
+			}
+		}
 		for si, s := range it.b.Succs {
 			if cut != nil && cut.Edges[Edge{it.b, si}] {
 				continue
 			}
-			if visited[s] {
+			facts := it.facts
+			if cond != nil {
+				// edge si==0 means iff.Cond true, i.e. cond == condPol
+				val := condPol
+				if si == 1 {
+					val = !condPol
+				}
+				if known, ok := it.facts.evalBool(cond); ok {
+					if known != val {
+						continue // infeasible under tracked facts
+					}
+				} else {
+					facts = it.facts.learn(cond, val)
+				}
+			}
+			// entering s: drop facts on values defined in s, then evaluate phis for this edge
+			nf := facts
+			copied := false
+			ensure := func() {
+				if !copied {
+					nf = copyFacts(facts)
+					copied = true
+				}
+			}
+			predIdx := -1
+			for pi, p := range s.Preds {
+				if p == it.b {
+					predIdx = pi
+					if len(it.b.Succs) == 2 && it.b.Succs[0] == it.b.Succs[1] && si == 1 {
+						continue
+					}
+					break
+				}
+			}
+			type pf struct {
+				v   ssa.Value
+				val constant.Value
+			}
+			var phiFacts []pf
+			for _, in := range s.Instrs {
+				v, isVal := in.(ssa.Value)
+				if !isVal {
+					continue
+				}
+				if phi, ok := in.(*ssa.Phi); ok && predIdx >= 0 && predIdx < len(phi.Edges) {
+					phiFacts = append(phiFacts, pf{phi, facts.constOf(phi.Edges[predIdx])})
+					continue
+				}
+				if _, has := nf[v]; has {
+					ensure()
+					delete(nf, v)
+				}
+			}
+			for _, f := range phiFacts {
+				if f.val != nil {
+					ensure()
+					nf[f.v] = f.val
+				} else if _, has := nf[f.v]; has {
+					ensure()
+					delete(nf, f.v)
+				}
+			}
+			k := key(s, nf)
+			if visited[k] {
 				continue
 			}
-			visited[s] = true
-			queue = append(queue, &item{s, 0, it})
+			visited[k] = true
+			queue = append(queue, &item{s, 0, it, nf})
 		}
 	}
 	return nil
+}
+
+// factMap records SSA values known to equal a constant on the current path.
+type factMap map[ssa.Value]constant.Value
+
+func copyFacts(f factMap) factMap {
+	n := make(factMap, len(f)+1)
+	for k, v := range f {
+		n[k] = v
+	}
+	return n
+}
+
+// constOf returns the constant v is known to equal (bool, string or int), or nil.
+func (f factMap) constOf(v ssa.Value) constant.Value {
+	if c, ok := v.(*ssa.Const); ok {
+		if c.Value != nil {
+			switch c.Value.Kind() {
+			case constant.Bool, constant.String, constant.Int:
+				return c.Value
+			}
+		}
+		return nil
+	}
+	if k, ok := f[v]; ok {
+		return k
+	}
+	return nil
+}
+
+// evalBool evaluates a branch condition under the facts.
+func (f factMap) evalBool(cond ssa.Value) (bool, bool) {
+	if k := f.constOf(cond); k != nil && k.Kind() == constant.Bool {
+		return constant.BoolVal(k), true
+	}
+	if b, ok := cond.(*ssa.BinOp); ok {
+		x, y := f.constOf(b.X), f.constOf(b.Y)
+		if x != nil && y != nil && x.Kind() == y.Kind() {
+			switch b.Op {
+			case token.EQL, token.NEQ, token.LSS, token.LEQ, token.GTR, token.GEQ:
+				if x.Kind() == constant.Bool && b.Op != token.EQL && b.Op != token.NEQ {
+					return false, false
+				}
+				return constant.Compare(x, b.Op, y), true
+			}
+		}
+	}
+	return false, false
+}
+
+// learn records what taking a branch edge teaches: the condition's own truth
+// value and, for `x == const` (true) / `x != const` (false), the value of x.
+func (f factMap) learn(cond ssa.Value, val bool) factMap {
+	var n factMap
+	if worthTracking(cond) {
+		n = copyFacts(f)
+		n[cond] = constant.MakeBool(val)
+	}
+	if b, ok := cond.(*ssa.BinOp); ok {
+		if (b.Op == token.EQL && val) || (b.Op == token.NEQ && !val) {
+			var x ssa.Value
+			var k constant.Value
+			if k = f.constOf(b.Y); k != nil {
+				x = b.X
+			} else if k = f.constOf(b.X); k != nil {
+				x = b.Y
+			}
+			if x != nil && isFlagLike(x) {
+				if n == nil {
+					n = copyFacts(f)
+				}
+				n[x] = k
+			}
+		}
+	}
+	if n == nil {
+		return f
+	}
+	return n
+}
+
+// isFlagLike: phis and parameters are the values whose constant-ness is worth
+// remembering (loop/branch flags); everything else would only blow up the
+// state space.
+func isFlagLike(v ssa.Value) bool {
+	switch v.(type) {
+	case *ssa.Phi, *ssa.Parameter:
+		return true
+	}
+	return false
+}
+
+// worthTracking: remember a condition's outcome only if it is a flag, or the
+// same SSA value feeds more than one branch (tested again later).
+func worthTracking(cond ssa.Value) bool {
+	if isFlagLike(cond) {
+		return true
+	}
+	refs := cond.Referrers()
+	if refs == nil {
+		return false
+	}
+	n := 0
+	for _, r := range *refs {
+		switch r.(type) {
+		case *ssa.If, *ssa.Phi, *ssa.UnOp:
+			n++
+		}
+	}
+	return n > 1
+}
+
+// isBoolTrackable: conditions whose outcome is remembered (recomputed values
+// are invalidated when their defining block is re-entered).
+func isBoolTrackable(v ssa.Value) bool {
+	switch v.(type) {
+	case *ssa.Phi, *ssa.Parameter, *ssa.Extract, *ssa.Call, *ssa.BinOp, *ssa.UnOp, *ssa.Lookup, *ssa.TypeAssert:
+		return true
+	}
+	return false
 }
 
 // FindPathFromEntry is FindPath from the function entry.
